@@ -292,9 +292,64 @@ func Run(tier string) {
 		run.Exhaustive()
 	}
 	longLines(run)
+	remarshal(run)
 	charSweep(run)
 	oracle(run, rand.New(rand.NewSource(seed)))
 	run.Finish()
+}
+
+// remarshal: what a header value serialises to depends on its value, not on its history. The same *Header is
+// marshalled, changed in place (type, argument, body, a stanza replaced, one appended, the MAC), and marshalled again:
+// each time the bytes must be those of a freshly built equal header and parse back to it.
+func remarshal(run *vk.Run) {
+	mk := func() *format.Header {
+		return &format.Header{MAC: bytes.Repeat([]byte{4}, 32), Recipients: []*format.Stanza{{Type: "t", Args: []string{"a", "b"}, Body: []byte("0123456789")}, {Type: "u", Args: []string{"c"}}}}
+	}
+	steps := []struct {
+		name string
+		f    func(h *format.Header)
+	}{
+		{"type", func(h *format.Header) { h.Recipients[0].Type = "tt" }},
+		{"arg", func(h *format.Header) { h.Recipients[0].Args[1] = "bb" }},
+		{"body", func(h *format.Header) { h.Recipients[1].Body = bytes.Repeat([]byte{8}, 50) }},
+		{"body-in-place", func(h *format.Header) { h.Recipients[0].Body[0] = 'X' }},
+		{"replace", func(h *format.Header) {
+			h.Recipients[1] = &format.Stanza{Type: "v", Args: []string{"d"}, Body: []byte{1}}
+		}},
+		{"append", func(h *format.Header) {
+			h.Recipients = append(h.Recipients, &format.Stanza{Type: "w", Args: []string{"e"}})
+		}},
+		{"mac", func(h *format.Header) { h.MAC = bytes.Repeat([]byte{5}, 32) }},
+	}
+	h := mk()   // lives through all steps
+	ref := mk() // the same changes applied to it, but re-built from scratch before every marshal
+	for _, st := range steps {
+		marshal(h) // an earlier serialisation of the same object
+		var nm bytes.Buffer
+		h.MarshalWithoutMAC(&nm)
+		st.f(h)
+		st.f(ref)
+		fresh := &format.Header{MAC: append([]byte{}, ref.MAC...)}
+		for _, r := range ref.Recipients {
+			fresh.Recipients = append(fresh.Recipients, &format.Stanza{Type: r.Type, Args: append([]string{}, r.Args...), Body: append([]byte{}, r.Body...)})
+		}
+		got, err1 := marshal(h)
+		want, err2 := marshal(fresh)
+		var gotNM, wantNM bytes.Buffer
+		h.MarshalWithoutMAC(&gotNM)
+		fresh.MarshalWithoutMAC(&wantNM)
+		run.Eval(1)
+		if err1 != nil || err2 != nil || !bytes.Equal(got, want) || !bytes.Equal(gotNM.Bytes(), wantNM.Bytes()) {
+			run.Violation("C07:roundtrip:remarshal:"+st.name, fmt.Sprintf("after changing %s in place the header marshals to %q; an equal, freshly built header marshals to %q", st.name, trunc(got), trunc(want)), nil)
+			return
+		}
+		p, pan := parseWith("bytes", got)
+		if pan != nil || !p.ok || !headersEqual(p.hdr, fresh) {
+			run.Violation("C07:roundtrip:remarshal:"+st.name, fmt.Sprintf("the re-marshalled header does not parse back to itself: %v %v", p.err, pan), nil)
+			return
+		}
+		run.Distinct("remarshal:" + st.name)
+	}
 }
 
 // charSweep: every byte value as the type, inside the type, as an argument and inside an argument of a stanza line.
@@ -366,6 +421,38 @@ func longLines(run *vk.Run) {
 			}
 			run.Distinct(fmt.Sprintf("long:%d:%d", n, nargs))
 		}
+	}
+	// filler of one or two line-buffer lengths in front of each line of a small valid header: whatever Parse makes of
+	// it must satisfy the case predicates (accepted input re-serialises to itself; rejected input leaves nothing)
+	{
+		h := &format.Header{MAC: bytes.Repeat([]byte{5}, 32), Recipients: []*format.Stanza{{Type: "t", Args: []string{"a"}, Body: bytes.Repeat([]byte{3}, 60)}}}
+		out, _ := marshal(h)
+		in := append(append([]byte{}, out...), []byte("payload")...)
+		for off := 0; off < len(out); off++ {
+			if off != 0 && in[off-1] != '\n' {
+				continue
+			}
+			for _, n := range []int{4095, 4096, 4097, 8192, 12288} {
+				f := append(append(append([]byte{}, in[:off]...), bytes.Repeat([]byte{'A'}, n)...), in[off:]...)
+				CheckCase(run, f, nil, fmt.Sprintf("filler:%d@%d", n, off))
+				run.Distinct(fmt.Sprintf("filler:%d@%d", n, off))
+			}
+		}
+	}
+	// long bodies (an ssh-rsa stanza for a 4096-bit key carries 512 bytes; plugins may carry more)
+	for _, n := range []int{479, 480, 481, 511, 512, 513, 1024, 4096, 70000} {
+		h := &format.Header{MAC: bytes.Repeat([]byte{6}, 32), Recipients: []*format.Stanza{{Type: "t", Args: []string{"a"}, Body: bytes.Repeat([]byte{0xb7}, n)}, {Type: "u", Args: []string{"b"}}}}
+		out, err := marshal(h)
+		if err != nil {
+			run.Violation(fmt.Sprintf("C07:marshal-error:longbody:%d", n), err.Error(), nil)
+			continue
+		}
+		p, pan := parseWith("bytes", append(append([]byte{}, out...), []byte("rest")...))
+		run.Eval(1)
+		if pan != nil || !p.ok || !headersEqual(p.hdr, h) || string(p.rest) != "rest" {
+			run.Violation(fmt.Sprintf("C07:roundtrip:longbody:%d", n), fmt.Sprintf("well-formed header with a %d-byte stanza body does not survive Marshal+Parse: ok=%v err=%v panic=%v", n, p.ok, p.err, pan), replay(out, "longbody", "bytes"))
+		}
+		run.Distinct(fmt.Sprintf("longbody:%d", n))
 	}
 	// many arguments
 	for _, k := range []int{10, 500, 1500, 3000} {
